@@ -87,6 +87,9 @@ def run_case(case):
                         r = [4, len(me)]
                     elif op[0] == 3:
                         r = [5, 1 if me.is_contiguous() else 0]
+                    elif op[0] == 5:
+                        me.close()          # a later write reopens the own file ("a"), a later read reopens read handles
+                        r = [7]
                     else:
                         r = [6, list(me)]
                 except ValueError:
@@ -108,6 +111,19 @@ def run_case(case):
             st.flush()
             final["files_after"] = sorted(os.listdir(d))
             final["len_after"] = len(st)
+            # the storage is usable again after flush(): a fresh round by the parent
+            st.reader_only = False
+            again = []
+            try:
+                st[1] = "one"
+                st[0] = "zero"
+                again = [len(st), 1 if st.is_contiguous() else 0, st[0], st[1], list(st)]
+                st.close()
+                st.flush()
+                again.append(sorted(os.listdir(d)))
+            except Exception as ex:  # noqa
+                again = ["raised", repr(ex)]
+            final["again"] = again
         main = sc.run(main_fn)
     finally:
         mod.Manager, mod.multiprocessing = saved[0], saved[1]
@@ -154,6 +170,9 @@ def to_events(log, names):
         p = names[th]
         if op == "opstart":
             cur[p] = [a[0], 0]
+            continue
+        if op == "opend":
+            cur.pop(p, None)
             continue
         if p not in cur:
             continue
@@ -248,6 +267,9 @@ class P(Prop):
         for pr in progs:
             for _ in range(rng.randint(0, 2)):
                 pr.insert(rng.randrange(len(pr) + 1), self.gen_rop(rng, nids))
+        for pr in progs:
+            if len(pr) >= 2 and rng.random() < 0.4:
+                pr.insert(rng.randrange(1, len(pr)), [5])
         for _ in range(rng.randint(0, 2)):
             progs.append([self.gen_rop(rng, nids) for _ in range(rng.randint(1, 5))])
         maxid = max(ids) + 2
@@ -269,7 +291,8 @@ class P(Prop):
         base = [dict(presize=None, progs=[[[0, 0, "a"], [0, 1, "b"]], [[1, 0], [1, 1], [1, 0]]]),
                 dict(presize=None, progs=[[[0, 1, "x"]], [[0, 0, "y"], [0, 1, "dup"]], [[3], [2], [1, 1]]]),
                 dict(presize=4, progs=[[[0, 2, "é€"], [0, 0, ""]], [[4], [1, 2]]]),
-                dict(presize=None, progs=[[[0, 3, "q"], [1, 3]], [[0, 0, "w"], [3]]])]
+                dict(presize=None, progs=[[[0, 3, "q"], [1, 3]], [[0, 0, "w"], [3]]]),
+                dict(presize=None, progs=[[[0, 1, "ab"], [5], [0, 0, "c"], [5], [1, 1], [0, 2, "d"]], [[1, 0], [1, 2]]])]
         for b in base:
             mx = 5
             for pol in POLICIES:
@@ -290,7 +313,7 @@ class P(Prop):
 
         def mop(op):
             return [0, op[1], enc(op[2])] if op[0] == 0 else list(op)
-        progs = [[mop(op) for op in pr] for pr in case["progs"]] + [[mop(op) for op in case["final"]]]
+        progs = [[mop(op) for op in pr if op[0] != 5] for pr in case["progs"]] + [[mop(op) for op in case["final"]]]
         return 1400, [case.get("presize") or 0, progs, evs]
 
     # ------------------------------------------------------------------ oracle on the implementation's run
@@ -346,6 +369,8 @@ class P(Prop):
         f = o["final"]
         if f.get("files_after") or f.get("len_after") != 0:
             return "flush left %s, len %s" % (f.get("files_after"), f.get("len_after"))
+        if f.get("again") != [2, 1, "zero", "one", ["zero", "one"], []]:
+            return "after flush the storage did not behave like a new one: %s" % (f.get("again"),)
         return None
 
     def judge(self, case, m, i):
@@ -360,7 +385,7 @@ class P(Prop):
                 if r[0] == 6:
                     return [6, [enc(t) for t in r[1]]]
                 return list(r)
-            outs = [[conv(r) for r in po] for po in i["outs"]]
+            outs = [[conv(r) for r in po if r != [7]] for po in i["outs"]]
             okk = m[0] == len(i["events"]) and m[1] == outs and m[6] == 1
         except Exception:
             okk = False
